@@ -119,6 +119,16 @@ def exec_job(job):
     W0 = np.sign(C) * (np.abs(C) / float(d)) ** 3     # weights (c/d)^3; d = 1: W == C
     # the same matrix as another dtype (only when d = 1: integer-valued) / memory layout
     W = rc.as_variant(W0, dtype, job.get("layout", "C"))
+    # the container the caller holds the matrix in (seed round 7): nested lists, tuples of tuples,
+    # np.matrix - for the routines that convert their argument first on the unchanged tree
+    # (clustering_coef_bd, transitivity_bu, transitivity_bd: sampled equal to the ndarray call)
+    form = job.get("form")
+    if form == "list":
+        W = np.asarray(W).tolist()
+    elif form == "tuple":
+        W = tuple(map(tuple, np.asarray(W).tolist()))
+    elif form == "matrix":
+        W = np.asmatrix(W)
     try:
         res = _call(job["fn"], W)
     except Exception as e:
@@ -493,6 +503,10 @@ def run(ctx):
             box["e"] = e
     th = threading.Thread(target=judge_scale)
     th.start()
+    frng = random.Random(ctx.seed * 19 + 9)
+    for j in jobs:            # argument container: an independent draw for the routines that take any array-like
+        if j["fn"] in ("clustering_coef_bd", "transitivity_bu", "transitivity_bd") and frng.random() < 0.25:
+            j["form"] = frng.choice(["list", "tuple", "matrix"])
     recs = pool.run_jobs(__name__, jobs, reuse=True, abort=True, strict_fp=True)
     verdicts = validate_parallel(ctx, recs)
     th.join()
